@@ -16,6 +16,7 @@ mod git_commit_parser;
 mod pos_conv;
 // --- harness ---
 mod common;
+mod rules;
 mod c02md;
 mod c12;
 mod c10;
